@@ -30,6 +30,7 @@ Section cmd_ind_nested.
     | SetColour n => Hflat (SetColour n) (fun n0 b H => ltac:(discriminate H))
     | SetAngle n => Hflat (SetAngle n) (fun n0 b H => ltac:(discriminate H))
     | TurnAngle n => Hflat (TurnAngle n) (fun n0 b H => ltac:(discriminate H))
+    | Paint f b0 => Hflat (Paint f b0) (fun n0 b H => ltac:(discriminate H))
     | Fail e => Hflat (Fail e) (fun n0 b H => ltac:(discriminate H))
     | Unsupported => Hflat Unsupported (fun n0 b H => ltac:(discriminate H))
     end.
@@ -49,7 +50,7 @@ Lemma plan1_sub n body fl ps :
   plan1 (Sub n body) fl ps = let '(ps', ms, stat) := plan body fresh ps in (fl, ps', ms, stat).
 Proof. reflexivity. Qed.
 
-Lemma angle_free1_sub n body : angle_free1 (Sub n body) = angle_free body.
+Lemma paint_free1_sub n body : paint_free1 (Sub n body) = paint_free body.
 Proof. reflexivity. Qed.
 
 (* ------------------------------------------------------------------------------------------------ *)
@@ -61,21 +62,19 @@ Proof.
     f_equal; lia.
 Qed.
 
-Lemma draw_scaled_spec sc v : draw_scaled sc (fst v) (snd v) = scaled sc v.
-Proof. reflexivity. Qed.
-
 Lemma draw_endpoint_padd p o : draw_endpoint (fst p) (snd p) (fst o) (snd o) = padd p o.
 Proof. unfold draw_endpoint, padd. f_equal; lia. Qed.
 
-Lemma offset_angle0 st v : d_angle st = 0 -> offset st v = Some (scaled (d_scale st) v).
-Proof.
-  intros H. unfold offset. rewrite draw_scaled_spec. unfold scaled. rewrite H. reflexivity.
-Qed.
+(* the rotation of _draw_step (generated tests + the two hand-modelled quarter turns) is `turned` *)
+Lemma offset_turned st v : offset st v = turned (d_angle st) (d_aspect st) (scaled (d_scale st) v).
+Proof. reflexivity. Qed.
 
 (* the generated limits are the limits the specification names *)
 Lemma ranges_spec :
   draw_range_step = (-99999, 99999) /\ draw_range_x = (-9999, 9999) /\ draw_range_y = (-9999, 9999)
-  /\ draw_range_scale = (1, 255) /\ draw_range_attr = (-99999, 99999) /\ draw_IFC = 5.
+  /\ draw_range_scale = (1, 255) /\ draw_range_attr = (-99999, 99999) /\ draw_range_angle_a = (0, 3)
+  /\ draw_range_angle_ta = (-360, 360) /\ draw_range_fill = (0, 9999) /\ draw_range_border = (0, 9999)
+  /\ draw_IFC = 5 /\ draw_OVERFLOW = 6 /\ draw_OUT_OF_MEMORY = 7.
 Proof. repeat split; reflexivity. Qed.
 
 (* the translator's idiom int(math.trunc(E / 4.)) = Z.quot E 4 needs |E| < 2^53: it is so for every
@@ -155,62 +154,45 @@ Qed.
 (* ------------------------------------------------------------------------------------------------ *)
 (** * exec / run refine plan1 / plan *)
 
-Definition pst_of (st : dstate) : pst := mkP (d_scale st) (d_attr st) (d_nattr st).
+Definition pst_of (st : dstate) : pst :=
+  mkP (d_scale st) (d_attr st) (d_nattr st) (d_angle st) (d_aspect st).
 
-(* what one command (resp. one activation) guarantees *)
+(* what one command (resp. one activation) guarantees, for strings without P *)
 Definition exec_ok (c : cmd) : Prop :=
-  angle_free1 c = true -> forall fl st, d_angle st = 0 ->
+  paint_free1 c = true -> forall fl st,
   forall fl' st' sg stat, exec c fl st = (fl', st', sg, stat) ->
   exists ps' ms,
-    plan1 c fl (pst_of st) = (fl', ps', ms, stat) /\ pst_of st' = ps' /\ d_angle st' = 0
-    /\ d_window st' = d_window st
-    /\ d_pen st' = pen_after (d_pen st) ms /\ sg = segs_of (d_pen st) ms.
+    plan1 c fl (pst_of st) = (fl', ps', ms, stat) /\ pst_of st' = ps'
+    /\ d_window st' = d_window st /\ d_outcomes st' = d_outcomes st
+    /\ d_pen st' = pen_after (d_pen st) ms /\ sg = map RLine (segs_of (d_pen st) ms).
 
 Definition run_ok (l : list cmd) : Prop :=
-  angle_free l = true -> forall fl st, d_angle st = 0 ->
+  paint_free l = true -> forall fl st,
   forall st' sg stat, run l fl st = (st', sg, stat) ->
   exists ps' ms,
-    plan l fl (pst_of st) = (ps', ms, stat) /\ pst_of st' = ps' /\ d_angle st' = 0
-    /\ d_window st' = d_window st
-    /\ d_pen st' = pen_after (d_pen st) ms /\ sg = segs_of (d_pen st) ms.
+    plan l fl (pst_of st) = (ps', ms, stat) /\ pst_of st' = ps'
+    /\ d_window st' = d_window st /\ d_outcomes st' = d_outcomes st
+    /\ d_pen st' = pen_after (d_pen st) ms /\ sg = map RLine (segs_of (d_pen st) ms).
 
 Lemma run_ok_of_Forall l : Forall exec_ok l -> run_ok l.
 Proof.
-  induction 1 as [|c l Hc Hl IH]; intros Haf fl st Hang st' sg stat Hrun.
+  induction 1 as [|c l Hc Hl IH]; intros Haf fl st st' sg stat Hrun.
   - cbn in Hrun. inversion Hrun; subst. exists (pst_of st'), []. cbn. auto 10.
-  - cbn [angle_free] in Haf. apply andb_true_iff in Haf as [Haf1 Haf].
+  - cbn [paint_free] in Haf. apply andb_true_iff in Haf as [Haf1 Haf].
     cbn [run] in Hrun.
     destruct (exec c fl st) as [[[fl1 st1] sg1] stat1] eqn:E1.
-    destruct (Hc Haf1 fl st Hang _ _ _ _ E1) as (ps1 & ms1 & Hp1 & Hps1 & Hang1 & Hw1 & Hpen1 & Hsg1).
+    destruct (Hc Haf1 fl st _ _ _ _ E1) as (ps1 & ms1 & Hp1 & Hps1 & Hw1 & Ho1 & Hpen1 & Hsg1).
     cbn [plan]. rewrite Hp1.
     destruct stat1.
     + destruct (run l fl1 st1) as [[st2 sg2] stat2] eqn:E2.
       inversion Hrun; subst st' sg stat. clear Hrun.
-      destruct (IH Haf fl1 st1 Hang1 _ _ _ E2) as (ps2 & ms2 & Hp2 & Hps2 & Hang2 & Hw2 & Hpen2 & Hsg2).
+      destruct (IH Haf fl1 st1 _ _ _ E2) as (ps2 & ms2 & Hp2 & Hps2 & Hw2 & Ho2 & Hpen2 & Hsg2).
       rewrite <- Hps1, Hp2. exists ps2, (ms1 ++ ms2).
-      repeat split; auto.
-      * congruence.
+      repeat split; auto; try congruence.
       * rewrite pen_after_app, <- Hpen1. exact Hpen2.
-      * rewrite segs_of_app, <- Hpen1, <- Hsg1, <- Hsg2. reflexivity.
+      * rewrite segs_of_app, map_app, <- Hpen1, <- Hsg1, <- Hsg2. reflexivity.
     + inversion Hrun; subst st' sg stat. exists ps1, ms1. auto 10.
     + inversion Hrun; subst st' sg stat. exists ps1, ms1. auto 10.
-Qed.
-
-Lemma in_range_ranges :
-  (forall v, in_range draw_range_step v = in_range (-99999, 99999) v)
-  /\ (forall v, in_range draw_range_x v = in_range (-9999, 9999) v)
-  /\ (forall v, in_range draw_range_y v = in_range (-9999, 9999) v)
-  /\ (forall v, in_range draw_range_scale v = in_range (1, 255) v)
-  /\ (forall v, in_range draw_range_attr v = in_range (-99999, 99999) v).
-Proof. repeat split; reflexivity. Qed.
-
-Lemma rel_move_angle0 st fl v : d_angle st = 0 ->
-  rel_move st fl v =
-  (fresh, set_pen st (if snd fl then d_pen st else padd (d_pen st) (scaled (d_scale st) v)),
-   if fst fl then [mkseg (d_pen st) (padd (d_pen st) (scaled (d_scale st) v)) (d_attr st)] else [], Done).
-Proof.
-  intros H. unfold rel_move. rewrite offset_angle0 by exact H. rewrite draw_endpoint_padd.
-  unfold step. reflexivity.
 Qed.
 
 (* a single move against its plan entry *)
@@ -218,36 +200,45 @@ Lemma move_facts st fl ab v :
   let m := mkmove ab v (fst fl) (snd fl) (d_attr st) in
   let p1 := if ab then v else padd (d_pen st) v in
   d_pen (set_pen st (if snd fl then d_pen st else p1)) = pen_after (d_pen st) [m]
-  /\ (if fst fl then [mkseg (d_pen st) p1 (d_attr st)] else []) = segs_of (d_pen st) [m].
+  /\ (if fst fl then [RLine (mkseg (d_pen st) p1 (d_attr st))] else []) = map RLine (segs_of (d_pen st) [m]).
 Proof.
   cbn. unfold next, target. cbn [m_abs m_back m_vec m_plot m_attr].
   split.
   - destruct (snd fl), ab; reflexivity.
-  - destruct (fst fl), ab; cbn; rewrite ?app_nil_r; reflexivity.
+  - destruct (fst fl), ab; cbn; reflexivity.
+Qed.
+
+(* a relative move against plan_rel *)
+Lemma rel_move_plan st fl v fl' st' sg stat :
+  rel_move st fl v = (fl', st', sg, stat) ->
+  exists ms,
+    plan_rel fl (pst_of st) v = (fl', pst_of st', ms, stat)
+    /\ d_window st' = d_window st /\ d_outcomes st' = d_outcomes st
+    /\ d_pen st' = pen_after (d_pen st) ms /\ sg = map RLine (segs_of (d_pen st) ms).
+Proof.
+  unfold rel_move, plan_rel. rewrite offset_turned. cbn [pst_of p_angle p_aspect p_scale].
+  destruct (turned (d_angle st) (d_aspect st) (scaled (d_scale st) v)) as [o|].
+  - rewrite draw_endpoint_padd. unfold step. intros H. inversion H; subst. clear H.
+    eexists. split; [reflexivity|].
+    pose proof (move_facts st fl false o) as [F1 F2]. cbn zeta in F1, F2. repeat split; auto.
+  - intros H. inversion H; subst. exists []. cbn. auto 10.
 Qed.
 
 Lemma exec_ok_all : forall c, exec_ok c.
 Proof.
   apply cmd_ind_nested.
-  - intros c Hns. unfold exec_ok. intros Haf fl st Hang fl' st' sg stat Hex.
-    destruct c; try (exfalso; eapply Hns; reflexivity); cbn [angle_free1] in Haf; try discriminate.
+  - intros c Hns. unfold exec_ok. intros Haf fl st fl' st' sg stat Hex.
+    destruct c; try (exfalso; eapply Hns; reflexivity); cbn [paint_free1] in Haf; try discriminate.
     + (* Move *)
       cbn [exec plan1] in *. change draw_range_step with (-99999, 99999) in Hex.
       destruct (in_range (-99999, 99999) n) eqn:Er.
-      * rewrite rel_move_angle0 in Hex by exact Hang. rewrite (dir_offset_unit d n) in Hex.
-        inversion Hex; subst. clear Hex.
-        eexists; eexists. split; [reflexivity|].
-        pose proof (move_facts st fl false (scaled (d_scale st) (n * fst (unit d), n * snd (unit d)))) as [F1 F2].
-        cbn zeta in F1, F2. repeat split; auto.
+      * rewrite (dir_offset_unit d n) in Hex.
+        destruct (rel_move_plan _ _ _ _ _ _ _ Hex) as (ms & Hp & H). exists (pst_of st'), ms. auto.
       * unfold raise_ifc in Hex. inversion Hex; subst. eexists; eexists. split; [reflexivity|]. cbn. auto 10.
     + (* MRel *)
       cbn [exec plan1] in *. change draw_range_x with (-9999, 9999) in Hex. change draw_range_y with (-9999, 9999) in Hex.
       destruct (in_range (-9999, 9999) x && in_range (-9999, 9999) y) eqn:Er.
-      * rewrite rel_move_angle0 in Hex by exact Hang.
-        inversion Hex; subst. clear Hex.
-        eexists; eexists. split; [reflexivity|].
-        pose proof (move_facts st fl false (scaled (d_scale st) (x, y))) as [F1 F2].
-        cbn zeta in F1, F2. repeat split; auto.
+      * destruct (rel_move_plan _ _ _ _ _ _ _ Hex) as (ms & Hp & H). exists (pst_of st'), ms. auto.
       * unfold raise_ifc in Hex. inversion Hex; subst. eexists; eexists. split; [reflexivity|]. cbn. auto 10.
     + (* MAbs *)
       cbn [exec plan1] in *. change draw_range_x with (-9999, 9999) in Hex. change draw_range_y with (-9999, 9999) in Hex.
@@ -267,24 +258,71 @@ Proof.
       cbn [exec plan1] in *. change draw_range_attr with (-99999, 99999) in Hex. destruct (in_range (-99999, 99999) n) eqn:Er.
       * inversion Hex; subst. eexists; eexists. split; [reflexivity|]. cbn. auto 10.
       * unfold raise_ifc in Hex. inversion Hex; subst. eexists; eexists. split; [reflexivity|]. cbn. auto 10.
+    + (* A *)
+      cbn [exec plan1] in *. change draw_range_angle_a with (0, 3) in Hex. destruct (in_range (0, 3) n) eqn:Er.
+      * inversion Hex; subst. eexists; eexists. split; [reflexivity|]. cbn. auto 10.
+      * unfold raise_ifc in Hex. inversion Hex; subst. eexists; eexists. split; [reflexivity|]. cbn. auto 10.
+    + (* TA *)
+      cbn [exec plan1] in *. change draw_range_angle_ta with (-360, 360) in Hex. destruct (in_range (-360, 360) n) eqn:Er.
+      * inversion Hex; subst. eexists; eexists. split; [reflexivity|]. cbn. auto 10.
+      * unfold raise_ifc in Hex. inversion Hex; subst. eexists; eexists. split; [reflexivity|]. cbn. auto 10.
     + (* Fail *) cbn in Hex. inversion Hex; subst. eexists; eexists. split; [reflexivity|]. cbn. auto 10.
     + (* Unsupported *) cbn in Hex. inversion Hex; subst. eexists; eexists. split; [reflexivity|]. cbn. auto 10.
-  - intros n body Hbody. unfold exec_ok. intros Haf fl st Hang fl' st' sg stat Hex.
-    rewrite angle_free1_sub in Haf. rewrite exec_sub in Hex. rewrite plan1_sub.
+  - intros n body Hbody. unfold exec_ok. intros Haf fl st fl' st' sg stat Hex.
+    rewrite paint_free1_sub in Haf. rewrite exec_sub in Hex. rewrite plan1_sub.
     destruct (run body fresh st) as [[st1 sg1] stat1] eqn:E1.
-    destruct (run_ok_of_Forall body Hbody Haf fresh st Hang _ _ _ E1)
-      as (ps1 & ms1 & Hp1 & Hps1 & Hang1 & Hw1 & Hpen1 & Hsg1).
+    destruct (run_ok_of_Forall body Hbody Haf fresh st _ _ _ E1)
+      as (ps1 & ms1 & Hp1 & Hps1 & Hw1 & Ho1 & Hpen1 & Hsg1).
     rewrite Hp1. exists ps1, ms1.
     destruct stat1; inversion Hex; subst; clear Hex; repeat split; auto.
     + unfold finish, pst_of. destruct (d_window st1); reflexivity.
-    + unfold finish. destruct (d_window st1); exact Hang1.
     + unfold finish. destruct (d_window st1) eqn:Ew; cbn [d_window]; congruence.
+    + unfold finish. destruct (d_window st1); exact Ho1.
     + unfold finish. destruct (d_window st1); exact Hpen1.
 Qed.
 
 Theorem run_plan : forall l, run_ok l.
 Proof.
   intros l. apply run_ok_of_Forall. apply Forall_forall. intros c _. apply exec_ok_all.
+Qed.
+
+(* ------------------------------------------------------------------------------------------------ *)
+(** * P: a flood fill request at the pen position *)
+
+Lemma attr_index_clamp na i : 1 <= na -> 0 <= i -> attr_index na i = clamp_attr na i.
+Proof.
+  intros Hn H. unfold attr_index, clamp_attr, draw_attr_index. destruct (i =? 0) eqn:E; [lia|reflexivity].
+Qed.
+
+Lemma attr_index_range na i : 1 <= na -> 0 <= attr_index na i < na.
+Proof. intros H. unfold attr_index, draw_attr_index. destruct (i =? 0); lia. Qed.
+
+(* the numbers in range, no WINDOW, the pen within 16 bits: exactly one request, at the pen, with both numbers
+   brought into the attributes of the mode; the pen, the prefixes, scale and angle stay; what the fill finds
+   (o) decides whether the last point and the colour change *)
+Theorem paint_request st fl f b o os :
+  in_range (0, 9999) f = true -> in_range (0, 9999) b = true -> d_window st = false ->
+  in_int16 (fst (d_pen st)) && in_int16 (snd (d_pen st)) = true -> d_outcomes st = o :: os ->
+  exists st', exec (Paint f b) fl st = (fl, st', [RPaint (d_pen st) (attr_index (d_nattr st) f) (attr_index (d_nattr st) b)], Done)
+    /\ d_pen st' = d_pen st /\ d_scale st' = d_scale st /\ d_angle st' = d_angle st /\ d_outcomes st' = os
+    /\ d_attr st' = (if (o =? 0) || (o =? 1) then d_attr st else attr_index (d_nattr st) f)
+    /\ d_last st' = (if o =? 0 then d_last st else d_pen st).
+Proof.
+  intros Hf Hb Hw Hi Ho. cbn [exec]. change draw_range_fill with (0, 9999). change draw_range_border with (0, 9999).
+  rewrite Hf, Hb. cbn [andb]. unfold paint. rewrite Hw, Hi, Ho.
+  eexists. split; [reflexivity|]. destruct (o =? 0) eqn:E0; [cbn; auto 10|].
+  destruct (o =? 1) eqn:E1; cbn; auto 10.
+Qed.
+
+(* outside those conditions: numbers out of range -> Illegal function call; pen beyond 16 bits -> Overflow *)
+Theorem paint_errors st fl f b :
+  (in_range (0, 9999) f && in_range (0, 9999) b = false -> exec (Paint f b) fl st = (fl, st, [], Raised 5))
+  /\ (in_range (0, 9999) f && in_range (0, 9999) b = true -> d_window st = false ->
+      in_int16 (fst (d_pen st)) && in_int16 (snd (d_pen st)) = false ->
+      exec (Paint f b) fl st = (fl, st, [], Raised 6)).
+Proof.
+  split; intros H; cbn [exec]; change draw_range_fill with (0, 9999); change draw_range_border with (0, 9999);
+    rewrite H; [reflexivity|]. intros Hw Hi. unfold paint. rewrite Hw, Hi. reflexivity.
 Qed.
 
 (* ------------------------------------------------------------------------------------------------ *)
@@ -297,8 +335,8 @@ Definition exec_last (c : cmd) : Prop :=
   forall fl st w l0, last_inv w l0 st ->
   last_inv w l0 (snd (fst (fst (exec c fl st)))).
 
-Lemma last_inv_set st w l0 p sc an at_ na :
-  last_inv w l0 st -> last_inv w l0 (mkD p (d_last st) (d_window st) sc an at_ na).
+Lemma last_inv_set st w l0 p sc an at_ na asp os :
+  last_inv w l0 st -> last_inv w l0 (mkD p (d_last st) (d_window st) sc an at_ na asp os).
 Proof. intros [H1 H2]. split; cbn; auto. Qed.
 
 Lemma last_inv_finish st w l0 : last_inv w l0 st -> last_inv w l0 (finish st).
@@ -318,11 +356,22 @@ Proof.
   specialize (IH fl1 st1 w l0 Hc). destruct (run l fl1 st1) as [[st2 sg2] stat2]. exact IH.
 Qed.
 
+Lemma paint_last st fl f b w l0 : last_inv w l0 st -> last_inv w l0 (snd (fst (fst (paint st fl f b)))).
+Proof.
+  intros Hinv. unfold paint. destruct (d_window st) eqn:Ew; [exact Hinv|].
+  destruct (in_int16 (fst (d_pen st)) && in_int16 (snd (d_pen st))); [|exact Hinv].
+  destruct (d_outcomes st) as [|o os]; [exact Hinv|]. cbn [fst snd].
+  destruct Hinv as [H1 H2]. assert (Hw : w = false) by congruence.
+  destruct (o =? 0); [|destruct (o =? 1)]; split; cbn; auto; intros; congruence.
+Qed.
+
 Lemma exec_last_all : forall c, exec_last c.
 Proof.
   apply cmd_ind_nested.
   - intros c Hns fl st w l0 Hinv.
     destruct c; try (exfalso; eapply Hns; reflexivity); cbn [exec];
+      try (destruct (in_range draw_range_fill f && in_range draw_range_border b);
+           [apply paint_last; exact Hinv | exact Hinv]);
       unfold raise_ifc, rel_move, step, set_pen, set_scale, set_angle, set_attr;
       repeat match goal with
              | |- context [if ?b then _ else _] => destruct b
@@ -342,31 +391,41 @@ Qed.
 (* ------------------------------------------------------------------------------------------------ *)
 (** * The DRAW statement *)
 
-Lemma current_mk p l w sc an at_ b na : current (mkG (Some p) l w sc an at_ b na) = p.
+Lemma current_mk p l w sc an at_ b na asp os : current (mkG (Some p) l w sc an at_ b na asp os) = p.
 Proof. reflexivity. Qed.
 
+Definition dstate_of_g (g : gstate) : dstate :=
+  mkD (current g) (g_last g) (g_window g) (g_scale g) (g_angle g) (g_attr g) (g_nattr g) (g_aspect g) (g_outcomes g).
+
+Lemma draw_unfold g cmds : g_text g = false ->
+  draw g cmds =
+  let '(st, sg, stat) := run cmds fresh (dstate_of_g g) in
+  let st' := match stat with Done => finish st | _ => st end in
+  (mkG (Some (d_pen st')) (d_last st') (d_window st') (d_scale st') (d_angle st') (d_attr st') false
+       (d_nattr st') (d_aspect st') (d_outcomes st'), sg, stat).
+Proof. intros H. unfold draw. rewrite H. reflexivity. Qed.
+
 Theorem draw_plan g cmds :
-  g_text g = false -> g_angle g = 0 -> angle_free cmds = true ->
+  g_text g = false -> paint_free cmds = true ->
   let r := draw g cmds in
-  let pl := plan cmds fresh (mkP (g_scale g) (g_attr g) (g_nattr g)) in
+  let pl := plan cmds fresh (pst_of_g g) in
   dr_status r = pl_status pl
   /\ current (dr_state r) = pen_after (current g) (pl_moves pl)
-  /\ dr_segs r = segs_of (current g) (pl_moves pl)
+  /\ dr_reqs r = map RLine (segs_of (current g) (pl_moves pl))
   /\ g_scale (dr_state r) = p_scale (pl_pst pl) /\ g_attr (dr_state r) = p_attr (pl_pst pl)
-  /\ g_angle (dr_state r) = 0.
+  /\ g_angle (dr_state r) = p_angle (pl_pst pl).
 Proof.
-  intros Ht Ha Haf. cbn zeta. unfold draw. rewrite Ht.
-  set (st0 := mkD (current g) (g_last g) (g_window g) (g_scale g) (g_angle g) (g_attr g) (g_nattr g)).
-  destruct (run cmds fresh st0) as [[st sg] stat] eqn:E.
-  destruct (run_plan cmds Haf fresh st0 Ha _ _ _ E) as (ps & ms & Hp & Hps & Hang & Hw & Hpen & Hsg).
-  unfold pst_of in Hp. cbn [d_scale d_attr d_nattr st0] in Hp. rewrite Hp.
-  subst st0. cbn [d_pen d_window] in Hpen, Hsg, Hw.
-  unfold dr_status, dr_state, dr_segs, pl_status, pl_moves, pl_pst. cbn [fst snd].
+  intros Ht Haf. cbn zeta. rewrite (draw_unfold g cmds Ht).
+  destruct (run cmds fresh (dstate_of_g g)) as [[st sg] stat] eqn:E.
+  destruct (run_plan cmds Haf fresh _ _ _ _ E) as (ps & ms & Hp & Hps & Hw & Ho & Hpen & Hsg).
+  change (pst_of (dstate_of_g g)) with (pst_of_g g) in Hp. rewrite Hp.
+  cbn [d_pen dstate_of_g] in Hpen, Hsg.
+  unfold dr_status, dr_state, dr_reqs, pl_status, pl_moves, pl_pst. cbn [fst snd].
   rewrite current_mk. cbn [g_scale g_attr g_angle].
   assert (Hfin : forall s, d_pen (finish s) = d_pen s /\ d_scale (finish s) = d_scale s
                            /\ d_attr (finish s) = d_attr s /\ d_angle (finish s) = d_angle s).
   { intros s. unfold finish. destruct (d_window s); cbn; auto. }
-  subst ps. unfold pst_of. cbn [p_scale p_attr].
+  subst ps. unfold pst_of. cbn [p_scale p_attr p_angle].
   destruct stat; repeat split; auto;
     try (destruct (Hfin st) as (F1 & F2 & F3 & F4); congruence).
 Qed.
@@ -381,11 +440,10 @@ Theorem draw_point_fn g cmds :
   /\ (g_window g = true -> g_last g' = g_last g)
   /\ (g_window g = false -> dr_status (draw g cmds) = Done -> g_last g' = current g').
 Proof.
-  intros Ht. cbn zeta. unfold draw. rewrite Ht.
-  set (st0 := mkD (current g) (g_last g) (g_window g) (g_scale g) (g_angle g) (g_attr g) (g_nattr g)).
-  assert (Hinv0 : last_inv (g_window g) (g_last g) st0) by (split; auto).
-  pose proof (run_last cmds fresh st0 _ _ Hinv0) as Hinv.
-  destruct (run cmds fresh st0) as [[st sg] stat]. cbn [fst] in Hinv.
+  intros Ht. cbn zeta. rewrite (draw_unfold g cmds Ht).
+  assert (Hinv0 : last_inv (g_window g) (g_last g) (dstate_of_g g)) by (split; auto).
+  pose proof (run_last cmds fresh (dstate_of_g g) _ _ Hinv0) as Hinv.
+  destruct (run cmds fresh (dstate_of_g g)) as [[st sg] stat]. cbn [fst] in Hinv.
   unfold dr_state, dr_status, point_fn, current. cbn [fst snd g_cur g_last g_window].
   assert (Hinv' : last_inv (g_window g) (g_last g) (match stat with Done => finish st | _ => st end)).
   { destruct stat; auto using last_inv_finish. }
@@ -400,12 +458,15 @@ Theorem range_errors fl st :
   /\ (forall x y, in_range (-9999, 9999) x && in_range (-9999, 9999) y = false ->
         exec (MRel x y) fl st = (fl, st, [], Raised 5) /\ exec (MAbs x y) fl st = (fl, st, [], Raised 5))
   /\ (forall n, in_range (1, 255) n = false -> exec (SetScale n) fl st = (fl, st, [], Raised 5))
-  /\ (forall n, in_range (-99999, 99999) n = false -> exec (SetColour n) fl st = (fl, st, [], Raised 5)).
+  /\ (forall n, in_range (-99999, 99999) n = false -> exec (SetColour n) fl st = (fl, st, [], Raised 5))
+  /\ (forall n, in_range (0, 3) n = false -> exec (SetAngle n) fl st = (fl, st, [], Raised 5))
+  /\ (forall n, in_range (-360, 360) n = false -> exec (TurnAngle n) fl st = (fl, st, [], Raised 5)).
 Proof.
   repeat split; intros; cbn [exec];
     change draw_range_step with (-99999, 99999); change draw_range_x with (-9999, 9999);
     change draw_range_y with (-9999, 9999); change draw_range_scale with (1, 255);
-    change draw_range_attr with (-99999, 99999); change draw_IFC with 5; unfold raise_ifc;
+    change draw_range_attr with (-99999, 99999); change draw_range_angle_a with (0, 3);
+    change draw_range_angle_ta with (-360, 360); change draw_IFC with 5; unfold raise_ifc;
     rewrite H; reflexivity.
 Qed.
 
@@ -430,13 +491,14 @@ Proof.
   apply cmd_ind_nested.
   - intros c Hns fl st Hinv.
     destruct c; try (exfalso; eapply Hns; reflexivity); cbn [exec];
-      unfold raise_ifc, rel_move, step, set_pen, set_angle, set_attr;
+      unfold raise_ifc, rel_move, step, paint, set_pen, set_angle, set_attr, set_last, set_outcomes;
       try (destruct (in_range draw_range_scale n) eqn:Er;
            [unfold scale_inv, set_scale; cbn [fst snd d_scale];
             unfold in_range in Er; cbn [draw_range_scale fst snd] in Er; lia | exact Hinv]);
       repeat match goal with
              | |- context [if ?b then _ else _] => destruct b
              | |- context [match offset ?s ?v with _ => _ end] => destruct (offset s v)
+             | |- context [match d_outcomes ?s with _ => _ end] => destruct (d_outcomes s)
              end; cbn [fst snd]; exact Hinv.
   - intros n body Hbody fl st Hinv. rewrite exec_sub.
     pose proof (run_scale_of_Forall body Hbody fresh st Hinv) as H.
@@ -460,26 +522,32 @@ Proof.
   intros H. cbn [plan]. rewrite H. destruct (plan l fl' ps') as [[ps2 ms2] st2]. reflexivity.
 Qed.
 
-(* a one-letter move: the offset is count * unit vector * scale, divided by four and truncated toward zero;
-   it draws unless B came before, stays unless N came before, and the prefixes are used up *)
-Lemma plan_move d n l fl ps : in_range (-99999, 99999) n = true ->
+(* a one-letter move: the offset is count * unit vector * scale, divided by four and truncated toward zero,
+   then turned by the angle; it draws unless B came before, stays unless N came before, and the prefixes
+   are used up *)
+Lemma plan_move d n l fl ps o : in_range (-99999, 99999) n = true ->
+  turned (p_angle ps) (p_aspect ps)
+         (Z.quot (p_scale ps * (n * fst (unit d))) 4, Z.quot (p_scale ps * (n * snd (unit d))) 4) = Some o ->
   plan (Move d n :: l) fl ps =
   (pl_pst (plan l fresh ps),
-   mkmove false (Z.quot (p_scale ps * (n * fst (unit d))) 4, Z.quot (p_scale ps * (n * snd (unit d))) 4)
-          (fst fl) (snd fl) (p_attr ps) :: pl_moves (plan l fresh ps),
+   mkmove false o (fst fl) (snd fl) (p_attr ps) :: pl_moves (plan l fresh ps),
    pl_status (plan l fresh ps)).
 Proof.
-  intros H. erewrite plan_cons_done by (cbn [plan1]; rewrite H; reflexivity). reflexivity.
+  intros H Ht. erewrite plan_cons_done
+    by (cbn [plan1]; rewrite H; unfold plan_rel, scaled; cbn [fst snd]; rewrite Ht; reflexivity).
+  reflexivity.
 Qed.
 
-Lemma plan_mrel x y l fl ps : in_range (-9999, 9999) x && in_range (-9999, 9999) y = true ->
+Lemma plan_mrel x y l fl ps o : in_range (-9999, 9999) x && in_range (-9999, 9999) y = true ->
+  turned (p_angle ps) (p_aspect ps) (Z.quot (p_scale ps * x) 4, Z.quot (p_scale ps * y) 4) = Some o ->
   plan (MRel x y :: l) fl ps =
   (pl_pst (plan l fresh ps),
-   mkmove false (Z.quot (p_scale ps * x) 4, Z.quot (p_scale ps * y) 4) (fst fl) (snd fl) (p_attr ps)
-     :: pl_moves (plan l fresh ps),
+   mkmove false o (fst fl) (snd fl) (p_attr ps) :: pl_moves (plan l fresh ps),
    pl_status (plan l fresh ps)).
 Proof.
-  intros H. erewrite plan_cons_done by (cbn [plan1]; rewrite H; reflexivity). reflexivity.
+  intros H Ht. erewrite plan_cons_done
+    by (cbn [plan1]; rewrite H; unfold plan_rel, scaled; cbn [fst snd]; rewrite Ht; reflexivity).
+  reflexivity.
 Qed.
 
 Lemma plan_mabs x y l fl ps : in_range (-9999, 9999) x && in_range (-9999, 9999) y = true ->
@@ -498,17 +566,31 @@ Lemma plan_prefix_N l fl ps : plan (PreN :: l) fl ps = plan l (fst fl, true) ps.
 Proof. erewrite plan_cons_done; [|reflexivity]. destruct (plan l (fst fl, true) ps) as [[a b] c]. reflexivity. Qed.
 
 Lemma plan_scale n l fl ps : in_range (1, 255) n = true ->
-  plan (SetScale n :: l) fl ps = plan l fl (mkP n (p_attr ps) (p_nattr ps)).
+  plan (SetScale n :: l) fl ps = plan l fl (set_p_scale ps n).
 Proof.
   intros H. erewrite plan_cons_done; [|cbn [plan1]; rewrite H; reflexivity].
-  destruct (plan l fl (mkP n (p_attr ps) (p_nattr ps))) as [[a b] c]. reflexivity.
+  destruct (plan l fl (set_p_scale ps n)) as [[a b] c]. reflexivity.
 Qed.
 
 Lemma plan_colour n l fl ps : in_range (-99999, 99999) n = true ->
-  plan (SetColour n :: l) fl ps = plan l fl (mkP (p_scale ps) (clamp_attr (p_nattr ps) n) (p_nattr ps)).
+  plan (SetColour n :: l) fl ps = plan l fl (set_p_attr ps (clamp_attr (p_nattr ps) n)).
 Proof.
   intros H. erewrite plan_cons_done; [|cbn [plan1]; rewrite H; reflexivity].
-  destruct (plan l fl (mkP (p_scale ps) (clamp_attr (p_nattr ps) n) (p_nattr ps))) as [[a b] c]. reflexivity.
+  destruct (plan l fl (set_p_attr ps (clamp_attr (p_nattr ps) n))) as [[a b] c]. reflexivity.
+Qed.
+
+Lemma plan_angle n l fl ps : in_range (0, 3) n = true ->
+  plan (SetAngle n :: l) fl ps = plan l fl (set_p_angle ps (90 * n)).
+Proof.
+  intros H. erewrite plan_cons_done; [|cbn [plan1]; rewrite H; reflexivity].
+  destruct (plan l fl (set_p_angle ps (90 * n))) as [[a b] c]. reflexivity.
+Qed.
+
+Lemma plan_turn n l fl ps : in_range (-360, 360) n = true ->
+  plan (TurnAngle n :: l) fl ps = plan l fl (set_p_angle ps n).
+Proof.
+  intros H. erewrite plan_cons_done; [|cbn [plan1]; rewrite H; reflexivity].
+  destruct (plan l fl (set_p_angle ps n)) as [[a b] c]. reflexivity.
 Qed.
 
 (* X: the substring runs with fresh prefixes of its own; the caller's pending prefixes survive it *)
@@ -522,8 +604,31 @@ Proof.
   erewrite plan_cons_done by (rewrite plan1_sub, E; reflexivity). reflexivity.
 Qed.
 
+(* the turns: none, quarter turns through the aspect ratio, point reflection; every angle that is set by A
+   is one of them *)
+Lemma turned_cases asp v :
+  turned 0 asp v = Some v /\ turned 360 asp v = Some v
+  /\ turned 90 asp v = Some (mul_trunc (snd v) (yfac asp), - floor_div (fst v) (yfac asp))
+  /\ turned 180 asp v = Some (- fst v, - snd v)
+  /\ turned 270 asp v = Some (- mul_trunc (snd v) (yfac asp), floor_div (fst v) (yfac asp)).
+Proof. repeat split; reflexivity. Qed.
+
+Lemma turned_right a asp v : right_angle a = true -> turned a asp v <> None.
+Proof.
+  unfold right_angle, turned. intros H.
+  destruct (a =? 0) eqn:E0; [cbn; discriminate|]. destruct (a =? 360) eqn:E360; [cbn; discriminate|].
+  cbn [orb]. destruct (a =? 90); [discriminate|]. destruct (a =? 180); [discriminate|].
+  destruct (a =? 270); [discriminate|]. cbn in H. discriminate.
+Qed.
+
+Lemma set_angle_right n : in_range (0, 3) n = true -> right_angle (90 * n) = true.
+Proof.
+  unfold in_range, right_angle. cbn [fst snd]. intros H.
+  assert (n = 0 \/ n = 1 \/ n = 2 \/ n = 3) as [->|[->|[->| ->]]] by lia; reflexivity.
+Qed.
+
 (* ------------------------------------------------------------------------------------------------ *)
-(** * Colours: what C stores is an attribute of the mode, so every requested segment has one *)
+(** * Colours: what C and P store is an attribute of the mode, so every request carries attributes *)
 
 Lemma draw_colour_spec na n : draw_colour na n = clamp_attr na n.
 Proof. reflexivity. Qed.
@@ -535,15 +640,20 @@ Lemma clamp_attr_id na n : 0 <= n < na -> clamp_attr na n = n.
 Proof. unfold clamp_attr. lia. Qed.
 
 Definition attr_inv (na : Z) (st : dstate) : Prop := d_nattr st = na /\ 0 <= d_attr st < na.
-Definition segs_attr_ok (na : Z) (sg : list seg) : Prop := Forall (fun s => 0 <= s_attr s < na) sg.
+Definition req_attr_ok (na : Z) (r : req) : Prop :=
+  match r with
+  | RLine s => 0 <= s_attr s < na
+  | RPaint _ f b => 0 <= f < na /\ 0 <= b < na
+  end.
+Definition reqs_attr_ok (na : Z) (sg : list req) : Prop := Forall (req_attr_ok na) sg.
 
 Definition exec_attr (c : cmd) : Prop :=
   forall fl st na, attr_inv na st ->
-  attr_inv na (snd (fst (fst (exec c fl st)))) /\ segs_attr_ok na (snd (fst (exec c fl st))).
+  attr_inv na (snd (fst (fst (exec c fl st)))) /\ reqs_attr_ok na (snd (fst (exec c fl st))).
 
 Lemma run_attr_of_Forall l : Forall exec_attr l ->
   forall fl st na, attr_inv na st ->
-  attr_inv na (fst (fst (run l fl st))) /\ segs_attr_ok na (snd (fst (run l fl st))).
+  attr_inv na (fst (fst (run l fl st))) /\ reqs_attr_ok na (snd (fst (run l fl st))).
 Proof.
   induction 1 as [|c l Hc Hl IH]; intros fl st na Hinv; cbn [run]; [split; [exact Hinv|constructor]|].
   specialize (Hc fl st na Hinv).
@@ -554,17 +664,31 @@ Proof.
 Qed.
 
 Lemma step_attr st fl p1 na : attr_inv na st ->
-  attr_inv na (fst (step st fl p1)) /\ segs_attr_ok na (snd (step st fl p1)).
+  attr_inv na (fst (step st fl p1)) /\ reqs_attr_ok na (snd (step st fl p1)).
 Proof.
   intros [H1 H2]. unfold step, set_pen. cbn [fst snd]. split; [split; cbn; assumption|].
   destruct (fst fl); constructor; [cbn; exact H2 | constructor].
+Qed.
+
+Lemma paint_attr st fl f b na : attr_inv na st ->
+  attr_inv na (snd (fst (fst (paint st fl f b)))) /\ reqs_attr_ok na (snd (fst (paint st fl f b))).
+Proof.
+  intros Hinv. assert (Hnone : attr_inv na st /\ reqs_attr_ok na []) by (split; [exact Hinv|constructor]).
+  unfold paint. destruct (d_window st); [exact Hnone|].
+  destruct (in_int16 (fst (d_pen st)) && in_int16 (snd (d_pen st))); [|exact Hnone].
+  destruct (d_outcomes st) as [|o os]; [exact Hnone|]. cbn [fst snd].
+  destruct Hinv as [H1 H2]. assert (Hna : 1 <= na) by lia.
+  pose proof (attr_index_range na f Hna) as Hf. pose proof (attr_index_range na b Hna) as Hb.
+  rewrite H1. split.
+  - destruct (o =? 0); [|destruct (o =? 1)]; split; cbn; auto.
+  - constructor; [cbn; auto | constructor].
 Qed.
 
 Lemma exec_attr_all : forall c, exec_attr c.
 Proof.
   apply cmd_ind_nested.
   - intros c Hns fl st na Hinv.
-    assert (Hnone : attr_inv na st /\ segs_attr_ok na []) by (split; [exact Hinv|constructor]).
+    assert (Hnone : attr_inv na st /\ reqs_attr_ok na []) by (split; [exact Hinv|constructor]).
     destruct c; try (exfalso; eapply Hns; reflexivity); cbn [exec]; unfold raise_ifc.
     + destruct (in_range draw_range_step n); [|exact Hnone]. unfold rel_move.
       destruct (offset st (dir_offset d n)) as [o|]; [|exact Hnone].
@@ -587,6 +711,8 @@ Proof.
       destruct Hinv as [H1 H2]. split; cbn; assumption.
     + destruct (in_range draw_range_angle_ta n); [|exact Hnone]. cbn [fst snd]. split; [|constructor].
       destruct Hinv as [H1 H2]. split; cbn; assumption.
+    + destruct (in_range draw_range_fill f && in_range draw_range_border b); [|exact Hnone].
+      apply paint_attr. exact Hinv.
     + exact Hnone.
     + exact Hnone.
   - intros n body Hbody fl st na Hinv. rewrite exec_sub.
@@ -597,21 +723,21 @@ Proof.
 Qed.
 
 (* the DRAW statement: if the colour in force is an attribute of the mode (every statement that sets it
-   clamps), it stays one and every requested segment carries one: the pixel write cannot be out of range *)
+   clamps), it stays one and every request carries attributes: no pixel write can be out of range *)
 Theorem draw_attr g cmds :
   0 <= g_attr g < g_nattr g ->
   0 <= g_attr (dr_state (draw g cmds)) < g_nattr g
   /\ g_nattr (dr_state (draw g cmds)) = g_nattr g
-  /\ Forall (fun s => 0 <= s_attr s < g_nattr g) (dr_segs (draw g cmds)).
+  /\ Forall (req_attr_ok (g_nattr g)) (dr_reqs (draw g cmds)).
 Proof.
-  intros Ha. unfold draw. destruct (g_text g).
-  - unfold dr_state, dr_segs. cbn [fst snd]. repeat split; try lia. constructor.
-  - set (st0 := mkD (current g) (g_last g) (g_window g) (g_scale g) (g_angle g) (g_attr g) (g_nattr g)).
-    assert (H0 : attr_inv (g_nattr g) st0) by (split; [reflexivity|exact Ha]).
+  intros Ha. destruct (g_text g) eqn:Ht.
+  - unfold draw. rewrite Ht. unfold dr_state, dr_reqs. cbn [fst snd]. repeat split; try lia. constructor.
+  - rewrite (draw_unfold g cmds Ht).
+    assert (H0 : attr_inv (g_nattr g) (dstate_of_g g)) by (split; [reflexivity|exact Ha]).
     assert (Hall : Forall exec_attr cmds) by (apply Forall_forall; intros c _; apply exec_attr_all).
-    pose proof (run_attr_of_Forall cmds Hall fresh st0 _ H0) as H.
-    destruct (run cmds fresh st0) as [[st sg] stat]. cbn [fst snd] in H. destruct H as [[H1 H2] Hs].
-    unfold dr_state, dr_segs. cbn [fst snd g_attr g_nattr].
+    pose proof (run_attr_of_Forall cmds Hall fresh (dstate_of_g g) _ H0) as H.
+    destruct (run cmds fresh (dstate_of_g g)) as [[st sg] stat]. cbn [fst snd] in H. destruct H as [[H1 H2] Hs].
+    unfold dr_state, dr_reqs. cbn [fst snd g_attr g_nattr].
     assert (Hf : d_attr (finish st) = d_attr st /\ d_nattr (finish st) = d_nattr st).
     { unfold finish. destruct (d_window st); split; reflexivity. }
     destruct Hf as [F1 F2]. destruct stat; rewrite ?F1, ?F2; repeat split; try lia; exact Hs.
